@@ -412,6 +412,7 @@ var ghostBuiltins = map[string]bool{
 	"pendingErr": true, "pendingFailed": true, "outCount": true, "outFirst": true, "outLast": true, "ctxDone": true, "allocated": true, "sameSlice": true, "sameFloat": true, "sameVal": true, "sameBase": true, "freshBase": true, "present": true,
 	"deferActive": true, "deferVal": true, "deferObj": true, "dynret": true, "mathInt": true, "fitsInt64": true, "fitsInt32": true,
 	"strLen": true, "boolToInt": true, "uninterp": true, "loopEntry": true, "allocatedBeforeLoop": true, "isNaN": true, "isInf": true,
+	"ratTextOK": true, "decimalFits": true, "decimalValue": true,
 	"toFloat": true, "exactCmpIF": true, "errIsCtx": true, "roundHalfAway": true, "truncF": true, "f2iInRange64": true, "f2iTrunc": true,
 }
 
@@ -717,6 +718,9 @@ func (env *specEnv) calleeKey(e ast.Expr) string {
 
 func (env *specEnv) ghost(name string, targs []ast.Expr, e *ast.CallExpr) SV {
 	x := env.x
+	if v, ok := env.bigGhost(name, e); ok {
+		return v
+	}
 	switch name {
 	case "old":
 		if env.old == nil {
